@@ -123,16 +123,17 @@ macro "method_split " h:ident : tactic => `(tactic| repeat' (split at $h:ident))
 class selected → `spec` evaluated → decoder function unfolded with the fields replaced by the operands -/
 macro "method_pre " hc:term:max ppSpace dl:ident ppSpace df:ident : tactic =>
   `(tactic| (have hc := $hc
+             repeat (first | specialize hc (by assumption) | specialize hc (by decide))
              refine ⟨_, rfl, ?_⟩
              rw [requested_iff, $dl:ident]
              case h => bv_decide (timeout := 600)
              repeat (obtain ⟨_, hc⟩ := hc)
              spec_eval
-             simp (disch := decide) only [$df:ident, fld, *, regField_enc, setWidth5_32, extract_of_mask _ _ _ _ _ hc]))
+             simp (disch := decide) only [$df:ident, fld, *, regField_enc, setWidth5_32, regField_def, extract_of_mask _ _ _ _ _ hc]))
 
 /-- second half: compare the two instructions operand by operand -/
 macro "method_fin" : tactic =>
-  `(tactic| (simp (disch := omega) [*, rz_field, rsp_field, fpr_field, regField_def, regField_gpr, gz_one, gz_zero, gs_one, gs_zero,
-               build, oreg, mk, guard', fpReg]))
+  `(tactic| (simp (disch := first | assumption | omega) [*, rz_field, rsp_field, rz_gpr, rsp_gpr, fpr_field, regField_gpr,
+               gz_one, gz_zero, gs_one, gs_zero, build, oreg, mk, guard', fpReg]))
 
 end Dora.A64
